@@ -1,11 +1,12 @@
 ------------------------------ MODULE TapeMC2 ------------------------------
-(* thorough: every tape of up to 2 blocks over a richer alphabet *)
+(* thorough: every tape of up to 2 blocks over a richer alphabet (224 blocks): zero-length pulses at both *)
+(* ends of a bit, blocks made of zero-length pulses only, uneven pulse sequences, every level, tails, pauses *)
 EXTENDS TapeAlpha
 AlphabetMC ==
   Tone1({1, 2}, {0, 1, 3}, AnyPol) \cup Tone2({1, 2}, {0, 3}, {0, 1}, {NoPol, 1})
-  \cup Turbo({1, 2}, {3}, {<<165>>, <<0>>}, {0, 1}, {3}, {1, 5, 8}, {0, 7})
+  \cup Turbo({1, 2}, {3}, {<<165>>}, {0, 1}, {3}, {1, 8}, {0, 7})
   \cup Pure({<<165>>, <<255>>}, {0, 1}, {0, 3}, {1, 8}, {0, 7})
   \cup Rec({0, 1}, {0, 3}, {0, 7})
   \cup Silence({0, 7}, AnyPol)
-  \cup PzxData({<<165>>, <<255>>, <<0>>}, {<<1>>, <<1, 1>>, <<3, 0>>, <<0, 0>>}, {<<3>>, <<3, 1>>, <<0, 3>>}, {1, 7, 8}, {0, 5}, {0, 1})
+  \cup PzxData({<<165>>, <<0>>}, {<<1>>, <<1, 1>>, <<3, 0>>, <<0, 0>>}, {<<3>>, <<0, 3>>}, {1, 8}, {0, 5}, {0, 1})
 =============================================================================
